@@ -172,6 +172,9 @@ class C10(Prop):
             return f"valid call rejected: {io['err']}: {io.get('msg')}"
         nm = len(mos)
         per = len(io["rows"]) // nm
+        if case["fkind"] == "numeric" and tc.uniform_edge_tie(case["method"], fvalues(case), mos[0]["rows"]):
+            self.edge_ties_skipped = getattr(self, "edge_ties_skipped", 0) + 1
+            return None  # float edge arithmetic of 'uniform' is outside the model (counted)
         labels = case.get("colnames") or [str(q) for q in range(nm)]
         for m, mo in enumerate(mos):
             e = self.compare_one(case, {**io, "rows": io["rows"][m * per:(m + 1) * per]}, mo, labels[m] if nm > 1 else None)
@@ -324,6 +327,9 @@ class C10(Prop):
                 if abs(r["pd"] - float(ref)) > 1e-9 * max(1.0, abs(float(ref))):
                     return f"partial_dependence {r['pd']!r} at feature value {r['f']!r} differs from the definition {float(ref)!r}"
         return None
+
+    def extra_coverage(self):
+        return {"edge_ties_skipped": getattr(self, "edge_ties_skipped", 0)}
 
     def nontrivial(self, case, io):
         if "rows" not in io or len(io["rows"]) < 2:
